@@ -41,21 +41,22 @@ func main() { vh.Main("C02", run) }
 // ---- one case ---------------------------------------------------------------------------------------------------
 
 type c02Case struct {
-	Stream   string   `json:"stream"`
-	Src      string   `json:"src_hex"`
-	SrcText  string   `json:"src_text"` // for the human reader; Src is authoritative
-	Input    string   `json:"input_hex"`
-	Vars     []string `json:"vars_hex,omitempty"` // name, value, name, value … (hex)
-	Args     []string `json:"args,omitempty"`
-	Chars    bool     `json:"chars,omitempty"`
-	InMode   int      `json:"input_mode,omitempty"`
-	OutMode  int      `json:"output_mode,omitempty"`
-	Sandbox  bool     `json:"sandbox,omitempty"` // NoExec + NoFileWrites + NoFileReads
-	TimeoutM int      `json:"timeout_ms,omitempty"`
-	PadKind  string   `json:"pad_kind,omitempty"` // "a": PadLen bytes 'a'; "crlf": lines "aaaaaa\r\n" cut to PadLen bytes — prepended to Input
-	PadLen   int      `json:"pad_len,omitempty"`
-	Cuts     []int    `json:"cuts,omitempty"`    // stdin is delivered in chunks cut at these offsets (one chunk per Read)
-	History  []string `json:"history,omitempty"` // reuse stream: inputs (hex) of the Execute calls on ONE Interpreter; "R" = ResetVars+ResetRand before the next
+	Stream   string     `json:"stream"`
+	Src      string     `json:"src_hex"`
+	SrcText  string     `json:"src_text"` // for the human reader; Src is authoritative
+	Input    string     `json:"input_hex"`
+	Vars     []string   `json:"vars_hex,omitempty"` // name, value, name, value … (hex)
+	Args     []string   `json:"args,omitempty"`
+	Chars    bool       `json:"chars,omitempty"`
+	InMode   int        `json:"input_mode,omitempty"`
+	OutMode  int        `json:"output_mode,omitempty"`
+	Sandbox  bool       `json:"sandbox,omitempty"` // NoExec + NoFileWrites + NoFileReads
+	TimeoutM int        `json:"timeout_ms,omitempty"`
+	PadKind  string     `json:"pad_kind,omitempty"` // "a": PadLen bytes 'a'; "crlf": lines "aaaaaa\r\n" cut to PadLen bytes — prepended to Input
+	PadLen   int        `json:"pad_len,omitempty"`
+	Cuts     []int      `json:"cuts,omitempty"`    // stdin is delivered in chunks cut at these offsets (one chunk per Read)
+	Fault    *hostFault `json:"fault,omitempty"`   // faults stream: entry point + injected faults of the host-side objects (faults.go)
+	History  []string   `json:"history,omitempty"` // reuse stream: inputs (hex) of the Execute calls on ONE Interpreter; "R" = ResetVars+ResetRand before the next
 }
 
 // stdinBytes is the full standard input of the case.
@@ -113,6 +114,7 @@ type c02Out struct {
 	NFuncs   int
 	CodeLen  int
 	Runs     []string // reuse stream: error text of every Execute
+	ErrOut   string   // faults stream: what the Error writer accepted
 }
 
 // limitWriter fails after max bytes so that runaway output stops the program instead of filling memory.
@@ -152,6 +154,10 @@ func runCaseW(cs c02Case, w io.Writer) (out c02Out) {
 		return out
 	}
 	out.Dump, out.NFuncs, out.CodeLen = dumpVerify(prog)
+	if cs.Fault != nil {
+		runFaultCase(cs, prog, &out)
+		return out
+	}
 	var vars []string
 	for _, v := range cs.Vars {
 		vars = append(vars, string(vh.Unhx(v)))
@@ -411,13 +417,20 @@ func runBatch(c *vh.Ctx, jobs []job) batchStats {
 		st.parsed++
 		c.Hit("parse:accepted")
 		c.OracleCase()
-		c.Eval(fmt.Sprint(j.cs.Src, "|", j.cs.Input, "|", j.cs.Vars, j.cs.Args, j.cs.PadKind, j.cs.PadLen, j.cs.Cuts, j.cs.History, j.cs.InMode, j.cs.OutMode, j.cs.Chars), o.CodeLen >= 4)
+		c.Eval(fmt.Sprint(j.cs.Src, "|", j.cs.Input, "|", j.cs.Vars, j.cs.Args, j.cs.PadKind, j.cs.PadLen, j.cs.Cuts, j.cs.History, j.cs.InMode, j.cs.OutMode, j.cs.Chars, j.cs.Fault.key()), o.CodeLen >= 4)
 		c.Hit("outcome:" + errClass(o.Res.Err))
 		if o.TimedOut {
 			st.timeouts++
 		}
-		if what, got, want := judge(j, o); what != "" {
+		what, got, want := judge(j, o)
+		if what == "" {
+			what, got, want = judgeFault(j, o)
+		}
+		if what != "" {
 			c.Fail(vh.Failure{Kind: "oracle", What: what, Finding: classify(j.cs, o), Case: j.cs, Got: got, Want: want})
+		}
+		if j.cs.Fault != nil {
+			c.Hit("fault-entry:" + j.cs.Fault.Entry)
 		}
 		if o.Dump != "" {
 			reqs = append(reqs, o.Dump)
@@ -637,6 +650,12 @@ func run(c *vh.Ctx) {
 	c.Note(fmt.Sprintf("same-key: %d cases (formats with k, k-1, 0, k+2 arguments in every order within one run and across Execute calls, with the "+
 		"caches empty or full; dynamic regexes valid/invalid across ~ match split sub gsub FS RS; CSV field names; one name as input file, output file and command)", len(kj)))
 	lap("same-key")
+	// 5e. host-side faults at every place the interpreter talks to the outside, through every entry point
+	fj := faultJobs(c)
+	st = runBatch(c, fj)
+	c.Note(fmt.Sprintf("faults: %d cases (system / print | cmd / cmd | getline / close / fflush / getline < file / > file / main input x failing Output, Error, Stdin, "+
+		"OpenFile, ShellCommand, early-exiting and signalled commands x ExecProgram, Execute, ExecuteContext live/background, Execute after a cancelled context), %d timeouts", len(fj), st.timeouts))
+	lap("faults")
 	// 6. the goawk binary on a sample
 	binarySample(c, kj)
 	lap("binary")
